@@ -181,7 +181,7 @@ def k_files(ctx):
 
 
 # ---- K2: align ---------------------------------------------------------------------------------------
-@harness("C10.align", cases=lambda tier: [(1, 1), (2, 2), (2, 3)] + ([(3, 3)] if tier == "thorough" else []),
+@harness("C10.align", cases=lambda tier: [(1, 1), (2, 2), (2, 3), (3, 2)] + ([(3, 3)] if tier == "thorough" else []),
          expect=lambda c: ["every-matched-pair-once-with-right-data", "each-secondary-read-once"])
 def k_align(ctx):
     n1, n2 = ctx.case
@@ -234,7 +234,7 @@ PLAN = {
 }
 BOUNDS = {"quick": {"map / imap / collect": "n <= 3 files, max_workers in {1, 2, n}, thread and process pools, every subset of unreadable files, "
                     "error_to_warning on/off, every completion point of every task within 3 (imap) / 2 (map, collect) scheduling events after its submission",
-                    "align": "1x1, 2x2, 2x3 files, every match structure whose secondaries are met in loading order"},
+                    "align": "1x1, 2x2, 2x3, 3x2 files, every match structure whose secondaries are met in loading order"},
           "thorough": {"map / imap / collect": "n <= 4", "align": "adds 3x3"}}
 OUTSIDE = ["the real executors and the OS schedule (the statement 'for any relative timing' is decided for the model's completion points)",
            "process pickling", "output= writing (C11)", "AlignError for secondaries that are not met in loading order"]
